@@ -116,3 +116,8 @@ def seq_slice(xs, lo, hi):
     """xs[lo:hi] for lo >= 0"""
     assert lo >= 0
     return xs[lo:hi] if hi >= lo else xs[0:0]
+
+
+def same_map(a, b):
+    """equal mappings INCLUDING insertion order (python's == on dicts ignores the order)"""
+    return list(a.items()) == list(b.items())
